@@ -268,12 +268,12 @@ def matmul(a, b):
 # uninterpreted maths
 # ----------------------------------------------------------------------------
 
-_SQRT = z3.Function("sqrt", z3.RealSort(), z3.RealSort())
-LOG = z3.Function("log", z3.RealSort(), z3.RealSort())
-EXP = z3.Function("exp", z3.RealSort(), z3.RealSort())
-SIN = z3.Function("sin", z3.RealSort(), z3.RealSort())
-COS = z3.Function("cos", z3.RealSort(), z3.RealSort())
-TAN = z3.Function("tan", z3.RealSort(), z3.RealSort())
+_SQRT = z3.Function("np_sqrt", z3.RealSort(), z3.RealSort())
+LOG = z3.Function("np_log", z3.RealSort(), z3.RealSort())
+EXP = z3.Function("np_exp", z3.RealSort(), z3.RealSort())
+SIN = z3.Function("np_sin", z3.RealSort(), z3.RealSort())
+COS = z3.Function("np_cos", z3.RealSort(), z3.RealSort())
+TAN = z3.Function("np_tan", z3.RealSort(), z3.RealSort())
 PI = z3.Real("pi")
 
 
